@@ -75,19 +75,32 @@ def _cli_lib(item):
                 text = text.replace(str(7001 + i), str(v))
             paths.append(os.path.join(d, f"{lib}{fi}.mo"))
             open(paths[-1], "w").write(text)
-        names = [x for x in names] + ["DoesNotExist"]
+        names = [x for x in names] + ["DoesNotExist", "AlsoMissing"]
 
         def run(models, target):
             argv = [sys.executable, "-m", "tools.compiler", "-o", d] + (["-t", "sympy"] if target else [])
             for m in models:
                 argv += ["-m", m]
+            for f in os.listdir(d):
+                if f.endswith(".py"):
+                    os.remove(os.path.join(d, f))
             p = subprocess.run(argv + paths, cwd=d, env=env, capture_output=True, text=True, timeout=600)
+            written[0] = sorted(f for f in os.listdir(d) if f.endswith(".py"))
             return p.returncode
+        written = [[]]
+        files_alone = {}
         for target in targets:
-            alone = {m: run([m], target) for m in names}
+            alone = {}
+            for m in names:
+                alone[m] = run([m], target)
+                files_alone[m] = written[0]
             for a, b in itertools.permutations(names, 2):
                 col.bump("cli_invocations_with_two_models")
                 got = run([a, b], target)
+                if target and written[0] != sorted(set(files_alone[a] + files_alone[b])):
+                    col.violation(f"cli:{lib}:sympy:{a},{b}:files",
+                                  f"compiler -t sympy -m {a} -m {b} writes {written[0]}, but alone the two requests write {files_alone[a]} and {files_alone[b]}",
+                                  {"library": lib, "models": [a, b], "target": target})
                 if got != alone[a] + alone[b]:
                     col.violation(f"cli:{lib}:{'sympy' if target else 'flatten'}:{a},{b}",
                                   f"compiler {'-t sympy ' if target else ''}-m {a} -m {b} exits {got}, but alone they exit {alone[a]} and {alone[b]}",
